@@ -25,14 +25,20 @@ Cases ==
     CASE Family = "delverts" -> UNION {{[k |-> "delverts", nv |-> m.nv, tris |-> m.tris, I |-> I] : I \in NonEmptySubsets(m.nv)} : m \in Meshes}
       [] Family = "segments" -> UNION {{[k |-> "segments", nt |-> nt, info |-> info, L |-> L] : L \in [1..nt -> Labels(info)]} : nt \in 0..MaxT, info \in SegInfos}
       [] Family = "setget" -> {[k |-> "setget", h |-> h] : h \in UNION {[1..n -> SetOps] : n \in 1..MaxT}}
+      [] Family = "convert" -> {[k |-> "convert", toSSE |-> d, headParts |-> hp, removeParallax |-> rp, calcBounds |-> cb, fixBSX |-> fb, fixShader |-> fs,
+                                 skinned |-> sk, colors |-> co, strips |-> st, parts |-> pa, dupNames |-> dn] :
+                                    d, hp, rp, cb, fb, fs, sk, co, st, pa, dn \in BOOLEAN}
       [] Family = "partassign" -> UNION {{[k |-> "partassign", nt |-> nt, np |-> np, L |-> L] : L \in [1..nt -> 0..(np - 1)]} : nt \in 1..MaxT, np \in 1..3}
 Expected(x) ==
     CASE x.k = "delverts" -> [labels |-> Erase(Iota(x.nv), x.I), tris |-> MapTris(x.tris, CollapseMap(x.I, x.nv))]
       [] x.k = "segments" -> [newLabels |-> [i \in 1..x.nt |-> NewLabel(x.info, x.L[i])]]
       [] x.k = "partassign" -> [n |-> x.nt]
       [] x.k = "setget" -> [n |-> Len(x.h)]
+      [] x.k = "convert" -> [n |-> 0]
 Hash(x) == (x.nv * 7 + Len(x.tris) * 13 + Len(x.I) * 3 + (IF Len(x.I) > 0 THEN x.I[1] ELSE 0) + FoldLeft(LAMBDA a, t : a + t[1] + 2 * t[2] + 3 * t[3], 0, x.tris))
-Picked(x) == Sample = 1 \/ (IF x.k = "delverts" THEN Hash(x) % Sample = Phase % Sample ELSE TRUE)
+BoolN(b) == IF b THEN 1 ELSE 0
+ConvHash(x) == BoolN(x.headParts) + 2 * BoolN(x.removeParallax) + 4 * BoolN(x.calcBounds) + 8 * BoolN(x.fixBSX) + 16 * BoolN(x.fixShader) + 32 * BoolN(x.dupNames) + 64 * BoolN(x.strips)
+Picked(x) == Sample = 1 \/ (IF x.k = "delverts" THEN Hash(x) % Sample = Phase % Sample ELSE IF x.k = "convert" THEN ConvHash(x) % Sample = Phase % Sample ELSE TRUE)
 Init == c \in Cases
 Next == UNCHANGED c
 Spec == Init /\ [][Next]_c
